@@ -81,6 +81,27 @@ Check C17_first_vs_rest : forall (rel : mx_fs -> mx_fs -> bool) (group : list mx
   (mx_first_vs_rest rel group = true <-> forall a b, In a group -> In b group -> rel a b = true).
 Print Assumptions C17_first_vs_rest.
 
+(* ... and the two relations the code uses this way are such equivalences: same_name_and_arguments on fields
+   without repeated argument names or object keys (what 5.4.2 and 5.6.3 guarantee), same_output_type_shape on
+   fields whose return types are defined *)
+Theorem C17_first_vs_rest_arguments : forall group, (forall f, In f group -> args_wf f) ->
+  (mx_first_vs_rest mx_same_name_and_arguments group = true <->
+   forall a b, In a group -> In b group -> mx_same_name_and_arguments a b = true).
+Proof. exact first_vs_rest_arguments. Qed.
+Check C17_first_vs_rest_arguments : forall group, (forall f, In f group -> args_wf f) ->
+  (mx_first_vs_rest mx_same_name_and_arguments group = true <->
+   forall a b, In a group -> In b group -> mx_same_name_and_arguments a b = true).
+Print Assumptions C17_first_vs_rest_arguments.
+
+Theorem C17_first_vs_rest_shape : forall s group, (forall f, In f group -> field_ty_defined s f) ->
+  (mx_first_vs_rest (mx_same_output_type_shape s) group = true <->
+   forall a b, In a group -> In b group -> mx_same_output_type_shape s a b = true).
+Proof. exact first_vs_rest_shape. Qed.
+Check C17_first_vs_rest_shape : forall s group, (forall f, In f group -> field_ty_defined s f) ->
+  (mx_first_vs_rest (mx_same_output_type_shape s) group = true <->
+   forall a b, In a group -> In b group -> mx_same_output_type_shape s a b = true).
+Print Assumptions C17_first_vs_rest_shape.
+
 (* the verdict is the conjunction of the named rules *)
 Theorem C17_verdict_decomposes : forall p s d, xv_exec_valid p s d = true <-> xv_all_rules p s d.
 Proof. exact xv_verdict_decomposes. Qed.
@@ -139,6 +160,22 @@ Example C17_known_class_d12d_witness :
     [ DOperation OpQuery None [ {| v_name := ex_v; v_ty := TNamed xs_Int; v_default := None; v_dirs := [] |} ] []
         [ SField None ex_f [ (ex_a, VList [VVar ex_v]) ] [] [] ] ].
 Proof. vm_compute. repeat split. Qed.
+
+Example C17_first_vs_rest_nonvacuous :
+  let mk args := {| mf_parent := ex_Q; mf_alias := None; mf_name := ex_f; mf_args := args; mf_dirs := [];
+                    mf_def := xv_meta_typename_fd; mf_sub_ty := xs_String; mf_sub := [] |} in
+  let g := [mk [(ex_a, ex_one); (ex_f, ex_two)]; mk [(ex_f, ex_two); (ex_a, ex_one)]] in
+  mx_first_vs_rest mx_same_name_and_arguments g = true /\
+  mx_first_vs_rest mx_same_name_and_arguments (g ++ [mk [(ex_a, ex_two)]]) = false /\
+  (forall f, In f g -> args_wf f).
+Proof.
+  cbn zeta. split; [vm_compute; reflexivity|]. split; [vm_compute; reflexivity|].
+  intros f [<-|[<-|[]]]; split; cbn [mf_args map fst].
+  - repeat constructor; cbn; intuition discriminate.
+  - intros k v [[= <- <-]|[[= <- <-]|[]]]; reflexivity.
+  - repeat constructor; cbn; intuition discriminate.
+  - intros k v [[= <- <-]|[[= <- <-]|[]]]; reflexivity.
+Qed.
 
 Example C17_xing_groups_nonvacuous :
   let mk p := {| mf_parent := p; mf_alias := None; mf_name := ex_f; mf_args := []; mf_dirs := [];
